@@ -16,9 +16,9 @@ import (
 func NewClientConn(ctx context.Context, n uint8, sendFunc sendBytesFunc,
 	receiveFunc recvBytesFunc, opts ...Option) (*GoBackNConn, error) {
 
-	if n == math.MaxUint8 {
-		return nil, fmt.Errorf("n must be smaller than %d",
-			math.MaxUint8)
+	if n == 0 || n == math.MaxUint8 {
+		return nil, fmt.Errorf("n must be greater than 0 and smaller "+
+			"than %d", math.MaxUint8)
 	}
 
 	cfg := newConfig(sendFunc, receiveFunc, n)
